@@ -5,6 +5,7 @@ import (
 
 	"pgregory.net/rapid"
 	"verif/harness/core"
+	"verif/harness/ref"
 	"verif/harness/run"
 )
 
@@ -224,5 +225,28 @@ func enumWidePairs(tier string, shard, nshards int, yield func(PairCase) bool) (
 			}
 		}
 	}
-	return false, "wide top nodes: 130 / 260 / 300 keys of layer 1 with a one-key leaf in every child slot (bf 16), versions differing in leaves below low and high link indices"
+	// a single node far wider than the branch factor suggests: 100 / 140 keys of layer 0 at branch factor 2 and 3
+	for _, bf := range []uint{2, 3} {
+		for _, n := range []int{100, 140} {
+			i++
+			if i%nshards != shard {
+				continue
+			}
+			layers := make([]uint8, n+20)
+			cfg := core.Config{BF: bf, Format: ref.FormatBinary, Key: core.KLK, Val: core.VInt, Cache: "none", Marshaler: "json", LKLayers: layers}
+			var base []core.Op
+			for k := 0; k < n; k++ {
+				base = append(base, core.Op{Kind: core.OpInsert, K: k, V: k % 4})
+			}
+			delta := []core.Op{{Kind: core.OpInsert, K: 1, V: 5}, {Kind: core.OpDelete, K: n - 2}, {Kind: core.OpInsert, K: n + 3, V: 1}}
+			mode := []string{"clone", "unrelated"}[(n/20)%2]
+			if mode == "unrelated" {
+				delta = append(append([]core.Op{}, base[n/2:]...), delta[0], delta[2])
+			}
+			if !yield(PairCase{Cfg: cfg, Base: base, Mode: mode, Delta: delta, OldRes: []string{"memory", "reloaded"}[n/100%2], NewRes: "reloaded", StopAt: -1}) {
+				return false, ""
+			}
+		}
+	}
+	return false, "single nodes of 100 / 140 keys at branch factor 2 and 3; wide top nodes: 130 / 260 / 300 keys of layer 1 with a one-key leaf in every child slot (bf 16), versions differing in leaves below low and high link indices"
 }
